@@ -745,3 +745,38 @@ Proof.
   constructor; cbn [k_clight k_hc k_mev gd_v0 gd_v1 gd_len ex_dist]; try lra; try discriminate.
   repeat constructor; cbn [sc_fall]; lra.
 Qed.
+
+(** ** ScintillationOffload: no photons and no draws for a non-positive mean;
+    in the Gaussian regime the count is the clamped, rounded sample and a valid
+    unsigned value *)
+Lemma scint_offload_none yield res edep s : yield * edep <= 0 ->
+  scint_offload (T:=R) yield res edep s = Some (0%Z, s).
+Proof.
+  intros Hm. unfold scint_offload. numR.
+  replace (Rltb 10 (yield * edep)) with false by (symmetry; apply Rltb_false; lra).
+  replace (Rltb 0 (yield * edep)) with false by (symmetry; apply Rltb_false; lra).
+  reflexivity.
+Qed.
+
+Lemma scint_offload_gauss_count yield res edep u1 u2 s : 10 < yield * edep ->
+  forall x st,
+  normal_step (T:=R) (yield * edep) (res * sqrt (yield * edep)) None (u1 :: u2 :: s) = Some ((x, st), s) ->
+  x + 1 / 2 < 4294967296 ->
+  exists k, scint_offload (T:=R) yield res edep (u1 :: u2 :: s) = Some (k, s)
+            /\ (0 <= k < 4294967296)%Z /\ k = Int_part (Rmax (x + 1 / 2) 0).
+Proof.
+  intros Hm x st Hrun Hub. unfold scint_offload. numR2.
+  replace (Rltb 10 (yield * edep)) with true by (symmetry; apply Rltb_true; lra).
+  unfold bind. numR. rewrite Hrun. cbn [ret]. unfold clamp_to_nonneg. numR2.
+  set (y := if Rltb (x + 1 / 2) 0 then 0 else x + 1 / 2).
+  assert (Hy : y = Rmax (x + 1 / 2) 0).
+  { unfold y. destruct (Rltb_spec (x + 1 / 2) 0); unfold Rmax; destruct (Rle_dec _ _); lra. }
+  assert (Hy0 : 0 <= y) by (rewrite Hy; apply Rmax_r).
+  destruct (truncZ_nonneg y Hy0) as [Ht Hip].
+  assert (Hlt : (Int_part y < 4294967296)%Z).
+  { apply lt_IZR. destruct (base_Int_part y) as [Hb _].
+    apply Rle_lt_trans with y; [exact Hb|].
+    rewrite Hy. unfold Rmax; destruct (Rle_dec _ _); lra. }
+  eexists; split; [reflexivity|].
+  unfold to_uint32. rewrite Ht. rewrite Z.mod_small by lia. rewrite <- Hy. split; [lia|reflexivity].
+Qed.
